@@ -2,6 +2,7 @@
 package c03
 
 import (
+	"bufio"
 	"bytes"
 	"database/sql"
 	"database/sql/driver"
@@ -87,7 +88,7 @@ func genCase(t *rapid.T) Case {
 	c := Case{
 		G: *g, Mode: mode, XDR: rapid.Bool().Draw(t, "xdr"),
 		Route:    rapid.IntRange(0, int(model.NumRoutes)-1).Draw(t, "route"),
-		Reader:   rapid.SampledFrom([]string{"chunks", "onebyte", "half", "dataerr", "whole"}).Draw(t, "reader"),
+		Reader:   rapid.SampledFrom([]string{"chunks", "onebyte", "half", "dataerr", "whole", "bufio", "bufio"}).Draw(t, "reader"),
 		Concat:   rapid.IntRange(1, 3).Draw(t, "concat"),
 		FailAt:   rapid.IntRange(0, 40).Draw(t, "failAt"),
 		FailHow:  rapid.IntRange(0, 2).Draw(t, "failHow"),
@@ -95,7 +96,7 @@ func genCase(t *rapid.T) Case {
 		Upper:    rapid.Bool().Draw(t, "upper"),
 		Poison:   rapid.IntRange(0, 3).Draw(t, "poison") == 0,
 	}
-	if c.Reader == "chunks" {
+	if c.Reader == "chunks" || c.Reader == "bufio" {
 		n := rapid.IntRange(1, 12).Draw(t, "nchunks")
 		for i := 0; i < n; i++ {
 			c.Chunks = append(c.Chunks, rapid.IntRange(1, 24).Draw(t, "chunk"))
@@ -440,6 +441,14 @@ func prop(c Case) error {
 		r = iotest.DataErrReader(bytes.NewReader(stream))
 	case "chunks":
 		r = &chunkReader{data: stream, sizes: c.Chunks, withEOF: len(c.Chunks)%2 == 0}
+	case "bufio":
+		// a *bufio.Reader handed over directly (what a caller reading a file or a socket
+		// has), with a buffer size of its own choosing, over a reader that splits the bytes
+		size := 16 + 7*len(c.Chunks)
+		if len(c.Chunks) > 0 {
+			size = []int{16, 17, 20, 28, 36, 100, 250, 1000, 4096, 4097}[c.Chunks[0]%10]
+		}
+		r = bufio.NewReaderSize(&chunkReader{data: stream, sizes: append([]int{5000}, c.Chunks...)}, size)
 	default:
 		r = bytes.NewReader(stream)
 	}
